@@ -445,6 +445,7 @@ func c08HugeOp(sc *c08Scope, r *RNG, kind int, quiet func(func())) (desc SX, cla
 // the same call, made at several points of one probe run, must give the same bytes
 type c08Same struct {
 	what  string
+	after string // what happened since the previous identical call ("": a large entry)
 	first []byte
 	n     int
 }
@@ -456,7 +457,11 @@ func (s *c08Same) check(b []byte) {
 		return
 	}
 	if !bytes.Equal(s.first, b) {
-		panic(fmt.Sprintf("%s: identical call no. %d gave different bytes after a large entry: %s", s.what, s.n, c08DiffDesc(s.first, b)))
+		after := s.after
+		if after == "" {
+			after = "a large entry"
+		}
+		panic(fmt.Sprintf("%s: identical call no. %d gave different bytes after %s: %s", s.what, s.n, after, c08DiffDesc(s.first, b)))
 	}
 }
 
